@@ -1135,3 +1135,43 @@ val ki_b : oracle -> oracle2 -> expr -> bool
 val sk_e : expr -> expr -> bool
 
 val sk_v : value -> value -> bool
+
+val nat_digits : z -> bytes0
+
+val int_toks : z -> tok list
+
+val int_ast : z -> ast
+
+val const_sql : expr -> (tok list * ast) option
+
+val translate : char list -> char list
+
+val plain_char : char -> bool
+
+val no_sql_wild : char list -> bool
+
+val cmp_text : operator -> char list option
+
+val consts_sql : expr list -> (tok list list * ast list) option
+
+val comma_join : tok list list -> tok list
+
+val int_bound : value -> z option
+
+val tr : expr -> (tok list * ast) option
+
+val int_in_range : z -> bool
+
+val const_side : expr -> bool
+
+val sql_meta_free : char -> bool
+
+val meta_free : char list -> bool
+
+val pattern_side : char list -> bool
+
+val bound_side : value -> bool
+
+val side : expr -> bool
+
+val side_v : value -> bool
